@@ -279,55 +279,66 @@ def r1_docstring_start(ctx):
 def r2_first_frame(ctx, rule='C08.R2'):
     rr = run_roles(ctx)
     rep = ctx.rep
-    f = rr.f
-    g = rr.g
-    dom = ctx.dom(g, g.entry)
-    stores = []
-    # the variable that carries the line found in the traceback into self.failed_tb_lineno
-    carriers = set()
-    for n in g.nodes:
-        if n.kind == 'stmt' and isinstance(n.ast, ast.Assign) and not n.dup and rr.in_loop(n) and isinstance(n.ast.value, ast.Name) and \
-                any(field_name(t, 'self') == 'self.failed_tb_lineno' for t in n.ast.targets):
-            carriers.add(n.ast.value.id)
-    for n in g.nodes:
-        if n.kind == 'stmt' and isinstance(n.ast, ast.Assign) and not n.dup and rr.in_loop(n):
+    TT = 'xdoctest.doctest_example._traverse_traceback'
+    # hosts: functions that walk a traceback with _traverse_traceback -- RUN itself, or a helper RUN calls (inlining bound 1)
+    hosts = []
+    for h in ctx.prog.funcs.values():
+        if h.module.name != 'xdoctest.doctest_example' or h.qualname == TT:
+            continue
+        gh = ctx.cfg(h) if h is not rr.f else rr.g
+        for n in gh.nodes:
+            if n.kind == 'for' and not n.dup and isinstance(n.ast.iter, ast.Call):
+                r = ctx.res.resolve_call(h, n.ast.iter)
+                if r[0] == 'repo' and r[1][0].qualname == TT:
+                    hosts.append((h, gh, n))
+    rep.floor(rule, 'traversals of a traceback', len(hosts), 1)
+    for (h, gh, head) in hosts:
+        anchor = h.qualname
+        domh = ctx.dom(gh, gh.entry)
+        rdh = ctx.rd(h) if h is not rr.f else rr.rd
+        need(isinstance(head.ast.target, ast.Name), 'C08.R2: traversal loop target is not a name')
+        entry_var = head.ast.target.id
+        in_loop = [n for n in gh.nodes if graph.in_loop_body(n, head.ast) and not n.dup]
+        # which value leaves the loop as "the line": stores inside the loop to a plain local
+        stores = [n for n in in_loop if n.kind == 'stmt' and isinstance(n.ast, ast.Assign) and isinstance(n.ast.targets[0], ast.Name) and
+                  any(isinstance(x, ast.Attribute) and x.attr in ('tb_lineno', 'f_lineno', 'co_firstlineno') for x in ast.walk(n.ast.value))]
+        if not stores:
+            rep.ob(rule, ctx.loc(h, head.ast), 'the traversal records a line number', False, 'no line number is taken from the traceback entries', anchor=anchor)
+            continue
+        # the file the frames are compared with: self._partfilename in RUN, or a parameter bound to it at the call site
+        def is_part_file(e):
+            if field_name(e, 'self') == 'self._partfilename' and h is rr.f:
+                return True
+            if isinstance(e, ast.Name) and h is not rr.f and e.id in [a.arg for a in h.node.args.args]:
+                i = [a.arg for a in h.node.args.args].index(e.id) - (1 if h.cls is not None else 0)
+                for (n2, c2, r2) in rr.calls:
+                    if r2[0] == 'repo' and any(x is h for x in r2[1]):
+                        arg = c2.args[i] if 0 <= i < len(c2.args) else next((k.value for k in c2.keywords if k.arg == e.id), None)
+                        if arg is None or field_name(arg, 'self') != 'self._partfilename':
+                            return False
+                return any(r2[0] == 'repo' and any(x is h for x in r2[1]) for (_, _, r2) in rr.calls)
+            return False
+        for n in stores:
             v = n.ast.value
-            tb_loops = [fr for fr in n.frames if fr.kind == 'loop' and fr.stmt is not rr.loop.ast]
-            if isinstance(v, ast.Attribute) and v.attr == 'tb_lineno':
-                stores.append(n)
-            elif tb_loops and any(is_name(t, c) for t in n.ast.targets for c in carriers) and not (isinstance(v, ast.Constant) and v.value is None):
-                # a store of the carried line inside the traversal loop that is not <entry>.tb_lineno
-                rep.ob(rule, ctx.loc(f, n.ast), ctx.src(n.ast), False,
-                       'the failing line is not the tb_lineno of the traceback entry: a frame\'s f_lineno is the line that frame executed LAST (a finally body, the re-raise), '
-                       'not the line the exception passed through', anchor=RUN)
-    if not stores and not carriers:
-        rep.floor(rule, 'stores of a traceback line number in RUN', len(stores), 1)
-    for n in stores:
-        tb_loops = [fr for fr in n.frames if fr.kind == 'loop' and fr.stmt is not rr.loop.ast]
-        if tb_loops and isinstance(tb_loops[-1].stmt, ast.For) and isinstance(tb_loops[-1].stmt.target, ast.Name):
-            okv = is_name(n.ast.value.value, tb_loops[-1].stmt.target.id)
-            rep.ob(rule, ctx.loc(f, n.ast), 'line of the traversed entry', okv, ctx.src(n.ast) if okv else 'tb_lineno is read from another object than the entry being traversed', nontrivial=False, anchor=RUN)
-    for n in stores:
-        facts = graph.guard_facts(dom, n)
-        ok = False
-        for fa in facts:
-            e = fa.expr
-            if isinstance(e, ast.Compare) and len(e.ops) == 1 and isinstance(e.ops[0], ast.Eq) and fa.polarity is True:
-                if any(field_name(s, 'self') == 'self._partfilename' for s in (e.left, e.comparators[0])):
-                    ok = True
-        rep.ob(rule, ctx.loc(f, n.ast), ctx.src(n.ast), ok,
-               'the line is taken only from a frame whose file is the part file' if ok else 'the failing line can be taken from a frame that is not doctest code (guards: %s)' % fmt_facts(facts), anchor=RUN)
-        loops = [fr for fr in n.frames if fr.kind == 'loop' and fr.stmt is not rr.loop.ast]
-        need(loops, 'C08.R2: traceback traversal loop not found')
-        head = loops[-1].head
-        p = graph.path(n.nsucc(), lambda x: x is head, efilter=graph.normal_only)
-        rep.ob(rule, ctx.loc(f, n.ast), 'traversal stops at the first matching frame', p is None,
-               'no path leads from the store back to the traversal loop: the outermost doctest frame wins' if p is None else
-               'the traversal continues after a matching frame: the innermost doctest frame (a helper defined earlier) wins and the reported line is wrong',
-               anchor=RUN)
-        it = head.ast.iter
-        okc = isinstance(it, ast.Call) and ctx.res.resolve_call(f, it)[0] == 'repo' and ctx.res.resolve_call(f, it)[1][0].qualname == 'xdoctest.doctest_example._traverse_traceback'
-        rep.ob(rule, ctx.loc(f, head.ast), 'frames come from _traverse_traceback', okc, ctx.src(it), nontrivial=False, anchor=RUN)
+            okv = isinstance(v, ast.Attribute) and v.attr == 'tb_lineno' and is_name(v.value, entry_var)
+            rep.ob(rule, ctx.loc(h, n.ast), 'line source: ' + ctx.src(n.ast), okv,
+                   'tb_lineno of the traversed entry (the line the exception passed through in that frame)' if okv else
+                   'the failing line is not the tb_lineno of the traceback entry: a frame\'s f_lineno is the line that frame executed LAST (a finally body, the re-raise), '
+                   'not the line the exception passed through', anchor=anchor)
+            facts = graph.guard_facts(domh, n)
+            ok = False
+            for fa in facts:
+                e = fa.expr
+                if isinstance(e, ast.Compare) and len(e.ops) == 1 and isinstance(e.ops[0], ast.Eq) and fa.polarity is True:
+                    if any(is_part_file(s_) for s_ in (e.left, e.comparators[0])):
+                        ok = True
+            rep.ob(rule, ctx.loc(h, n.ast), ctx.src(n.ast), ok,
+                   'the line is taken only from a frame whose file is the part file' if ok else 'the failing line can be taken from a frame that is not doctest code (guards: %s)' % fmt_facts(facts), anchor=anchor)
+            p = graph.path(n.nsucc(), lambda x: x is head, efilter=graph.normal_only)
+            rep.ob(rule, ctx.loc(h, n.ast), 'traversal stops at the first matching frame', p is None,
+                   'no path leads from the store back to the traversal loop: the outermost doctest frame wins' if p is None else
+                   'the traversal continues after a matching frame: the innermost doctest frame (a helper defined earlier) wins and the reported line is wrong',
+                   anchor=anchor)
     # _traverse_traceback yields its argument first
     ft = ctx.func('xdoctest.doctest_example._traverse_traceback')
     gt = ctx.cfg(ft)
